@@ -40,8 +40,8 @@ type Params struct {
 	MatDelay, AllowH, RequireH, EphH, FoundH uint64
 	Reward                                   uint64
 	GenSC, GenSF                             []AbsOut
-	TaxForkH, ProofForkH                     uint64 // 0: post-fork rules from genesis
-	DevH, DevLock                            uint64 // developer-address fork (0: none) and the time lock of the new address's unlock conditions
+	TaxForkH, ProofForkH                     uint64   // 0: post-fork rules from genesis
+	DevH, DevLock                            uint64   // developer-address fork (0: none) and the time lock of the new address's unlock conditions
 	Keyring                                  *Keyring `json:"-"` // optional: a keyring with custom addresses
 }
 
@@ -164,15 +164,15 @@ func (c AbsC2) MarshalJSON() ([]byte, error) {
 
 // Post is the abstract committed state after a step.
 type Post struct {
-	None bool              `json:"none"`
-	H    uint64            `json:"h"`
-	Pool uint64            `json:"pool"`
+	None bool                  `json:"none"`
+	H    uint64                `json:"h"`
+	Pool uint64                `json:"pool"`
 	Fnd  struct{ P, M string } `json:"fnd"`
-	Att  uint64            `json:"att"`
-	SC   [][]json.RawMessage `json:"sc"` // <<id, val, addr, mat>>
-	SF   [][]json.RawMessage `json:"sf"` // <<id, val, addr, cs>>
-	C1   [][]json.RawMessage `json:"c1"` // <<id, contract>>
-	C2   [][]json.RawMessage `json:"c2"`
+	Att  uint64                `json:"att"`
+	SC   [][]json.RawMessage   `json:"sc"` // <<id, val, addr, mat>>
+	SF   [][]json.RawMessage   `json:"sf"` // <<id, val, addr, cs>>
+	C1   [][]json.RawMessage   `json:"c1"` // <<id, contract>>
+	C2   [][]json.RawMessage   `json:"c2"`
 }
 
 // Step is one step of a behaviour.
